@@ -330,6 +330,11 @@ func (c *ExprCtx) ident(name string) TV {
 			return c.constValue(cst.Val(), cst.Type())
 		}
 	}
+	if c.lenient && c.fr != nil && c.block != nil {
+		if a, t, ok := c.lvalue(CIdent{Name: name}); ok {
+			return TV{V: e.load(c.st, a, t), Typ: t}
+		}
+	}
 	if c.lenient {
 		// a name that is not in scope at this program point (e.g. at an early return): an
 		// unconstrained value, so the obligation can only hold if it is vacuous there
@@ -547,6 +552,10 @@ func (c *ExprCtx) indexExpr(base TV, ix CExpr) TV {
 		// mathematical array term
 		if t, ok := base.V.(T); ok && isArrSort(t.Sort) {
 			return TV{V: Select(t, c.intExpr(ix))}
+		}
+		if t, ok := base.V.(T); ok && c.lenient && strings.Contains(t.S, "outofscope:") {
+			// a name that is not in scope at this program point: an unconstrained value
+			return TV{V: e.s.Const("outofscope:elem", SInt)}
 		}
 		c.fail("index on untyped term")
 	}
@@ -1398,6 +1407,28 @@ func (c *ExprCtx) lvalue(x CExpr) (Addr, types.Type, bool) {
 			b = b.Idom()
 			if b != nil {
 				i = len(b.Instrs)
+			}
+		}
+		if c.lenient {
+			// at a return site a variable declared in one branch is out of lexical scope, but its
+			// memory cell still holds the value that branch left in it; the assertion has to guard
+			// the use by a condition that identifies the branch (on other paths the value is
+			// arbitrary). Only done when the name is unique in the function.
+			var found *ssa.Alloc
+			n := 0
+			for _, bb := range c.fr.fn.Blocks {
+				for _, in := range bb.Instrs {
+					if al, ok := in.(*ssa.Alloc); ok && al.Comment == x.Name {
+						if _, has := c.fr.vals[al]; has {
+							found = al
+							n++
+						}
+					}
+				}
+			}
+			if n == 1 {
+				pv := e.asPtr(c.fr.vals[found], found.Type())
+				return pv.A, found.Type().Underlying().(*types.Pointer).Elem(), true
 			}
 		}
 		return Addr{}, nil, false
